@@ -1114,11 +1114,15 @@ class Process(StateMachine, persistence.Savable, metaclass=ProcessStateMachineMe
         :param msg: an optional message to set as the status. The current status will be saved in the private
             `_pre_paused_status attribute`, such that it can be restored when the process is played again.
 
-        :return: False if process is already terminated,
+        :return: False if process is already terminated or being killed,
                  True if already paused or pausing,
                  a `CancellableAction` to pause if the process was running steps
         """
         if self.has_terminated():
+            return False
+
+        if self._killing is not None:
+            # Being killed: the kill takes precedence, a pause must not replace the pending kill action
             return False
 
         if self.paused:
